@@ -25,6 +25,16 @@
 (*             out`), its n = the same form.  Go: the function value and the   *)
 (*             arguments are evaluated by the go statement; the machine copies *)
 (*             them into the new process's locals (NewProc).                   *)
+(*   iface     n workers, each OWNING an object (a counter; odd ids one dynamic  *)
+(*             type, Add adds v, even ids another, Add adds 2*v), all call ONE *)
+(*             shared function with ONE interface method call site             *)
+(*             `x.Add(<-c)` whose argument blocks on the worker's private      *)
+(*             channel; a chain of feeders releases the workers in the REVERSE *)
+(*             of the order in which they were started.  k = form: 0 argument  *)
+(*             `<-c`, 1 argument a call that yields and then receives, 2 the   *)
+(*             callers are HOST goroutines calling one exported function.      *)
+(*             Per-object state: Isolation says an object is read and written  *)
+(*             by its own worker only.                                         *)
 (*   host      n host goroutines call the same script function F               *)
 (*   interps   n interpreters run the same program in parallel                 *)
 (*                                                                             *)
@@ -53,7 +63,7 @@ Tag(id, j) == Add(Mul(V(id), C(10)), V(j))       \* id*10+j: a value that names 
 MainParams == <<"n", "k", "b", "m">>
 
 FnNames == {"main_pipeline", "main_pool", "main_drain", "main_privsel", "main_counter",
-            "main_nolock", "main_rebind", "rworker", "main_earlyclose", "eclose", "main_prodcons", "main_host", "main_interps", "stage", "gen", "worker",
+            "main_nolock", "main_rebind", "rworker", "main_iface", "oworker", "ofeeder", "main_earlyclose", "eclose", "main_prodcons", "main_host", "main_interps", "stage", "gen", "worker",
             "closer", "sworker", "feeder", "cworker", "nworker", "iworker", "imain", "producer",
             "pcloser", "consumer", "hostcall", "hgen"}
 
@@ -66,6 +76,8 @@ TParamsL == [f \in FnNames |->
     [] f \in {"feeder"}   -> <<"id", "in", "quit", "stop", "m">>
     [] f \in {"cworker", "nworker", "iworker", "imain", "hostcall"} -> <<"id", "m">>
     [] f \in {"producer"} -> <<"id", "ch", "m">>
+    [] f \in {"oworker"}  -> <<"id", "obj", "c">>
+    [] f \in {"ofeeder"}  -> <<"id", "c", "wait", "sig", "m">>
     [] f \in {"rworker"}  -> <<"id", "p", "mp", "sl", "fn", "x">>
     [] f \in {"pcloser"}  -> <<"ch">>
     [] f \in {"consumer"} -> <<"id", "ch", "res">>
@@ -74,7 +86,8 @@ TParamsL == [f \in FnNames |->
 
 TVars == {"n", "k", "b", "m", "i", "j", "v", "r", "s", "t", "ok", "acc", "sum", "tot", "id",
           "in", "out", "first", "prev", "next", "jobs", "res", "quit", "stop", "ch", "c",
-          "p", "mp", "sl", "fn", "x", "a", "bb", "cc"}
+          "p", "mp", "sl", "fn", "x", "a", "bb", "cc",
+          "obj", "tprev", "tnext", "wait", "sig"}
 
 \* the argument of `go` is copied when the statement executes: r changes afterwards
 CounterMain(w) == <<
@@ -197,6 +210,39 @@ TProgL == [f \in FnNames |->
       (* 5*) <<"jmp", 2>>,
       (* 6*) <<"send", "quit", C(1)>>,
       (* 7*) <<"ret">> >> )
+  [] f = "main_iface" -> (<<
+      (* 1*) <<"wgadd", "W", V("n")>>,
+      (* 2*) <<"make", "first", C(0)>>,
+      (* 3*) <<"set", "tprev", V("first")>>,
+      (* 4*) <<"set", "i", C(1)>>,
+      (* 5*) <<"jz", Le(V("i"), V("n")), 14>>,
+      (* 6*) <<"new", "obj", Mul(V("i"), C(100))>>,
+      (* 7*) <<"make", "c", C(0)>>,
+      (* 8*) <<"make", "tnext", C(0)>>,
+      (* 9*) <<"go", "oworker", <<V("i"), V("obj"), V("c")>>>>,
+      (*10*) <<"go", "ofeeder", <<V("i"), V("c"), V("tnext"), V("tprev"), V("m")>>>>,
+      (*11*) <<"set", "tprev", V("tnext")>>,
+      (*12*) Inc("i"),
+      (*13*) <<"jmp", 5>>,
+      \* release the worker started last first; the token comes back when all were fed
+      (*14*) <<"send", "tprev", C(1)>>,
+      (*15*) <<"recv", "first", "_">>,
+      (*16*) <<"wgwait", "W">>,
+      (*17*) <<"ret">> >> )
+  \* apply(x, c) { x.Add(<-c) } followed by the report of the object's state
+  [] f = "oworker" -> (<<
+      (* 1*) <<"recv", "c", "v">>,
+      (* 2*) <<"pload", "a", "obj">>,
+      (* 3*) <<"pstore", "obj", Add(V("a"), Mul(V("v"), Add(C(1), Eq(<<"odd", V("id")>>, C(0)))))>>,
+      (* 4*) <<"pload", "a", "obj">>,
+      (* 5*) <<"print", <<V("id"), V("a")>>>>,
+      (* 6*) <<"wgdone", "W">>,
+      (* 7*) <<"ret">> >> )
+  [] f = "ofeeder" -> (<<
+      (* 1*) <<"recv", "wait", "_">>,
+      (* 2*) <<"send", "c", Tag("id", "m")>>,
+      (* 3*) <<"send", "sig", C(1)>>,
+      (* 4*) <<"ret">> >> )
   [] f = "main_rebind" -> (<<
       (* 1*) <<"wgadd", "W", V("n")>>,
       (* 2*) <<"set", "i", C(1)>>,
@@ -375,6 +421,8 @@ Many == NSet \ {1}
 InstancesOf(f) ==
     CASE f = "pipeline" -> {Mk(f, n, k, b, 3) : n \in 0..3, k \in NSet, b \in BSet}      \* n: form of the stage callee
       [] f = "rebind"   -> {Mk(f, n, k, 0, 2) : n \in NSet, k \in 0..3}
+      \* (form 3: form 1 whose yielding function ends with `return <-c`, one pinned instance)
+      [] f = "iface"    -> {Mk(f, n, k, 0, 2) : n \in NSet, k \in 0..2} \cup {Mk(f, 1, 3, 0, 2)}
       [] f \in {"pool", "drain"} -> {Mk(f, n, 0, b, 3) : n \in NSet, b \in BSet}
       \* privsel: b = capacity of quit; k = rendering form of the send case (0: the value is
       \* computed before the select, 1: `case in <- id*10+j`), one pinned instance of form 1
@@ -405,13 +453,14 @@ SqSum(m) == Sum([j \in 1..m |-> Sq(j)], m)
 TagSum(id, m) == Sum([j \in 1..m |-> id * 10 + j], m)
 TagSums(n, m) == Sum([i \in 1..n |-> TagSum(i, m)], n)
 
-MultisetOf(i) == i.t \in {"pool", "drain", "privsel", "host", "interps", "rebind"}
+MultisetOf(i) == i.t \in {"pool", "drain", "privsel", "host", "interps", "rebind", "iface"}
 
 ExpectOf(i) ==
     LET n == i.n  k == i.k  m == i.m IN
     CASE i.t = "pipeline" -> [j \in 1..m |-> <<Pipe(j, 1, k)>>]
       [] i.t \in {"pool", "drain"} -> [j \in 1..m |-> <<1, Sq(j)>>] \o << <<2, SqSum(m)>> >>
       [] i.t = "privsel"  -> [x \in 1..n |-> <<x, TagSum(x, m)>>]
+      [] i.t = "iface"    -> [x \in 1..n |-> <<x, x * 100 + (IF x % 2 = 1 THEN 1 ELSE 2) * (x * 10 + m)>>]
       [] i.t = "rebind"   -> [x \in 1..n |-> <<x, x * 100 + x, x * 100 + 1, x * 100 + 2, (x * 10 + m) * 2 + 1>>]
       [] i.t \in {"counter", "nolock"} -> << <<n * m>> >>
       [] i.t = "earlyclose" -> <<>>
